@@ -114,4 +114,92 @@ theorem valueOf_strict (sv : SeqVars) (i : Nat) (x : Text) :
       Bool.false_eq_true]
   all_goals (first | rfl | (cases List.lookup x _ <;> rfl))
 
+/-! ### the dispatch of `__getitem__` -/
+
+theorem rfind_none (c : Char) (s : Text) (h : c ∉ s) : rfind c s = -1 := by
+  induction s with
+  | nil => rfl
+  | cons a t ih =>
+    have h1 : ¬ a = c := fun e => h (by simp [e])
+    have h2 : c ∉ t := fun e => h (by simp [e])
+    simp [rfind, ih h2, h1]
+
+theorem rfind_split (c : Char) (p m : Text) (h : c ∉ m) : rfind c (p ++ c :: m) = p.length := by
+  induction p with
+  | nil => simp [rfind, rfind_none c m h]
+  | cons a t ih =>
+    simp only [List.cons_append, rfind, ih, List.length_cons]
+    have : (0 : Int) ≤ (t.length : Int) := by omega
+    simp [this]
+
+theorem slice_split (c : Char) (p m : Text) :
+    sliceFrom (p ++ c :: m) ((p.length : Int) + 1) = m ∧ sliceTo (p ++ c :: m) (p.length : Int) = p := by
+  have h1 : normIdx (p ++ c :: m).length ((p.length : Int) + 1) = p.length + 1 := by
+    simp only [normIdx, List.length_append, List.length_cons]
+    have : (0 : Int) ≤ (p.length : Int) + 1 := by omega
+    rw [if_pos this]; omega
+  have h2 : normIdx (p ++ c :: m).length (p.length : Int) = p.length := by
+    simp only [normIdx, List.length_append, List.length_cons]
+    have : (0 : Int) ≤ (p.length : Int) := by omega
+    rw [if_pos this]; omega
+  constructor
+  · rw [sliceFrom, h1]; simp
+  · rw [sliceTo, h2]; simp
+
+/-- the split of `__getitem__`: a key `p-m` (no '-' in `m`) that is not an entry of the dictionary goes on with prefix `p`, suffix `m` -/
+theorem getitem_split (sv : SeqVars) (fuel : Nat) (p m : Text) (hm : '-' ∉ m)
+    (hd : dataHas sv (p ++ '-' :: m) = none) :
+    getitemGen sv (fuel + 1) (p ++ '-' :: m) = tailGen sv (getitemGen sv fuel) (p ++ '-' :: m) m p := by
+  have hl : ¬ ((p.length : Int) < 0) := by omega
+  simp only [getitemGen, hd, rfind_split '-' p m hm, hl, if_false, (slice_split '-' p m).1, (slice_split '-' p m).2]
+
+theorem data_miss {α : Type} (sv : SeqVars) (k : Text) (h : dataHas sv k = none) (A : Val → α) (B : α) :
+    (match dataGet sv k with | .ok v => A v | _ => B) = B := by
+  unfold dataHas at h
+  cases hg : dataGet sv k with
+  | ok v => rw [hg] at h; cases h
+  | keyError _ => rfl
+  | raise _ => rfl
+
+theorem data_index' (sv : SeqVars) (hn : sv.noIndex = false) : dataGet sv "sequence-index".toList = .ok (.int sv.index) := by
+  simp only [dataGet]; rw [if_pos ⟨trivial, hn⟩]
+
+/-- `sequence-<attribute>`: the attribute is called with `data['sequence-index']` -/
+theorem getitem_sequence (sv : SeqVars) (fuel : Nat) (m : Text) (hm : '-' ∉ m) (hh : hasattrSelf m = true)
+    (hn : sv.noIndex = false) (hd : dataHas sv ("sequence".toList ++ '-' :: m) = none) :
+    getitemGen sv (fuel + 1) ("sequence".toList ++ '-' :: m) = callAttr sv m (.int sv.index) := by
+  rw [getitem_split sv fuel _ m hm hd]
+  have e : "sequence".toList ++ "-index".toList = "sequence-index".toList := by decide
+  simp only [tailGen, hh, if_true, e, data_index' sv hn]
+
+theorem getitem_first (sv : SeqVars) (fuel : Nat) (x : Text) (hx : '-' ∉ x)
+    (hd : dataHas sv ("first".toList ++ '-' :: x) = none) (hi : dataHas sv "first-index".toList = none) :
+    getitemGen sv (fuel + 1) ("first".toList ++ '-' :: x) =
+      firstGen sv (.str x) (.str ("first".toList ++ '-' :: x)) := by
+  rw [getitem_split sv fuel _ x hx hd]
+  have e : "first".toList ++ "-index".toList = "first-index".toList := by decide
+  have hs : isSpecialPrefix "first".toList = true := by decide
+  simp only [tailGen, e, hs, if_true]
+  simp only [callSpecial, if_true]
+  cases hgg : dataGet sv "first-index".toList with
+  | ok v => unfold dataHas at hi; rw [hgg] at hi; cases hi
+  | keyError _ => simp
+  | raise _ => simp
+
+theorem getitem_last (sv : SeqVars) (fuel : Nat) (x : Text) (hx : '-' ∉ x)
+    (hd : dataHas sv ("last".toList ++ '-' :: x) = none) (hi : dataHas sv "last-index".toList = none) :
+    getitemGen sv (fuel + 1) ("last".toList ++ '-' :: x) =
+      lastGen sv (.str x) (.str ("last".toList ++ '-' :: x)) := by
+  rw [getitem_split sv fuel _ x hx hd]
+  have e : "last".toList ++ "-index".toList = "last-index".toList := by decide
+  have hs : isSpecialPrefix "last".toList = true := by decide
+  have hne : ¬ ("last".toList = "first".toList) := by decide
+  simp only [tailGen, e, hs, if_true]
+  simp only [callSpecial, hne, if_false, if_true]
+  cases hgg : dataGet sv "last-index".toList with
+  | ok v => unfold dataHas at hi; rw [hgg] at hi; cases hi
+  | keyError _ => simp
+  | raise _ => simp
+
+
 end DTML.Lemmas.SeqVar
